@@ -16,6 +16,9 @@ struct Outcome {
   std::string message; // human readable, deterministic
   uint64_t hash = 0;   // event-log hash (determinism gate)
   bool nontrivial = false;
+  // the run was cut short (longjmp out of the simulated threads): the
+  // process must not be reused for another run
+  bool restart_worker = false;
   Json stats;          // flat object of integer counters, summed over runs
   Json signature;      // flat object used to match known findings
   std::vector< std::pair< uint64_t, int > > executed; // schedule decisions
